@@ -158,6 +158,15 @@ def competitorIn (r : Ranking) (id oldScore oldRank score : Int) (lo hi : Nat) :
   | .hang => .hang
   | _ => .panic
 
+/-- the cap test in front of a newcomer's search:
+`rankCount > 0 && len(scores) >= rankCount && Cmp(score, scores[len-1].Score) <= 0` -/
+def blocked (r : Ranking) (score : Int) : Bool :=
+  if r.cap > 0 ∧ (r.scores.length : Int) ≥ r.cap then
+    match r.scores[r.scores.length - 1]? with
+    | some last => decide (rcmp r.asc score last.2 ≤ 0)
+    | none => false      -- unreachable for cap ≥ 1; Go would panic
+  else false
+
 /-- `Competitor(id, score)` -/
 def competitor (r : Ranking) (id score : Int) : Step :=
   match r.comp.get id with
@@ -173,13 +182,7 @@ def competitor (r : Ranking) (id score : Int) : Step :=
       | .panic => .panic
       | _ => .done r []
   | none =>
-    let blocked : Bool :=
-      if r.cap > 0 ∧ (r.scores.length : Int) ≥ r.cap then
-        match r.scores[r.scores.length - 1]? with
-        | some last => decide (rcmp r.asc score last.2 ≤ 0)
-        | none => false      -- unreachable for cap ≥ 1; Go would panic
-      else false
-    if blocked then .done r []
+    if r.blocked score then .done r []
     else competitorIn r id 0 (-1) score 0 r.scores.length
 
 /-- `RemoveCompetitor(id)` -/
